@@ -17,6 +17,59 @@ def kernel_replay(ctx, cases, maxcases, tag):
     return json.load(open(summ)), vlib.read_ndjson(fails)
 
 
+def strace_capture(ctx, cases, tag, n):
+    """Independent capture of the installed program: strace -v decodes the sock_fprog the kernel received."""
+    import re
+    import subprocess
+    import tempfile
+    bindir = ctx.harness()
+    jf = ctx.path("jobs_%s.ndjson" % tag)
+    rc, out, err = ctx.run([os.path.join(bindir, "polkernel"), "-in", cases, "-failures", ctx.path("x_%s" % tag), "-summary", ctx.path("y_%s" % tag), "-seed", str(ctx.seed),
+                            "-max", str(n), "-dumpjobs", jf, "-dumpn", str(n)], timeout=1200)
+    if rc != 0:
+        raise vlib.Machinery("polkernel -dumpjobs failed: " + err[-1000:])
+    done = 0
+    for row in vlib.read_ndjson(jf):
+        job, want = row["job"], row["program"]
+        shm = tempfile.NamedTemporaryFile(prefix="verif-strace-", dir="/dev/shm", delete=False)
+        shm.truncate((16 + 4096) * 4)
+        shm.close()
+        job["shm"] = shm.name
+        st = ctx.path("st_%s_%d.txt" % (tag, done))
+        try:
+            subprocess.run(["strace", "-f", "-v", "-X", "raw", "-s", "10000000", "-e", "trace=seccomp", "-o", st, os.path.join(bindir, "polkernel"), "-child"],
+                           input=json.dumps(job), capture_output=True, text=True, timeout=60, env={"PATH": "/usr/bin:/bin", "GODEBUG": "asyncpreemptoff=1"})
+        except subprocess.TimeoutExpired:
+            ctx.skip("strace capture timed out")
+            continue
+        finally:
+            os.unlink(shm.name)
+        txt = open(st).read()
+        m = re.search(r"seccomp\((?:0x1|1), (0x[0-9a-f]+|\d+), \{len=(\d+), filter=\[(.*?)\]\}\)\s+=\s+(-?\d+)", txt, re.S)
+        if not m:
+            ctx.skip("strace output has no decodable seccomp call")
+            continue
+        flags, ln, body = int(m.group(1), 0), int(m.group(2)), m.group(3)
+        got = []
+        for kind, args in re.findall(r"BPF_(STMT|JUMP)\(([^)]*)\)", body):
+            a = []
+            for x in args.split(","):
+                val = 0
+                for part in x.split("|"):
+                    val |= int(part.strip(), 0)
+                a.append(val)
+            got.append([a[0], 0, 0, a[1]] if kind == "STMT" else [a[0], a[2], a[3], a[1]])
+        done += 1
+        ctx.cov["traces_validated_against_impl"] += 1
+        if flags != job["flags"] or ln != len(want) or got != want:
+            first = next((i for i, (g, w) in enumerate(zip(got, want)) if g != w), None)
+            ctx.violation("strace: the program the kernel received (%d instructions, flags %#x) is not the compiled one (%d instructions, flags %#x); first difference at %s"
+                          % (ln, flags, len(want), job["flags"], first),
+                          {"job": job, "kernel_saw": got[:50], "compiled": want[:50], "how": "./check C08 thorough"})
+    ctx.cov.setdefault("strace_captures", 0)
+    ctx.cov["strace_captures"] += done
+
+
 def check(ctx, replay=None):
     if replay:
         bindir = ctx.harness()
@@ -61,6 +114,8 @@ def check(ctx, replay=None):
         for f in fails:
             f["how"] = "./check C08 --replay <this file>"
             ctx.violation("%s: %s" % (f["kind"], f["why"]), f)
+        if p["scope"] in ("many", "klong", "rich"):
+            strace_capture(ctx, out, p["scope"], 6 if th else 2)
     cov["rule"] = ("policies of the CompileScopes scopes (many, rich, allops, groups2, single, boundary, klong = programs of 250..700 instructions) concretised over "
                    "the 14 harmless probe syscalls of x86_64 with seeded argument positions and word embeddings; one fresh child per policy through the real "
                    "LoadFilter with flags in {0,tsync,log,tsync|log} and NoNewPrivs on/off; raw probes with 64-bit registers, expected errno/ENOSYS/SIGSYS "
